@@ -135,6 +135,25 @@ pub fn sigma() -> Vec<char> {
     v.extend("ＡＫＱＪＴ１２ＳＨＤＣsАКСＳ1bBxXzZ?*-_.,;:!#/\\'\"()[]{}<>|+=~`^%$&@".chars());
     v.extend(['\0', ' ', '\t', '\n', '\r', '\x0B', '\x0C', '\u{85}', '\u{A0}', '\u{2003}', '\u{3000}', '\u{200B}', '\u{FEFF}']);
     v.extend(['é', 'ß', 'λ', 'Ж', '中', '♞', '★', '🂡', '🃏', '😀', '\u{301}', '\u{20DD}', '\u{10FFFF}', '\u{7F}', '\u{80}', '\u{7FF}', '\u{800}', '\u{FFFF}', '\u{10000}']);
+    // mechanically derived confusables of every symbol: characters that a careless normalisation
+    // (bit masks, case mapping, width folding, off-by-one ranges) would map onto a symbol
+    let symbols: Vec<char> = text::RANK_SYMBOLS.chars().chain(text::SUIT_SYMBOLS.chars()).collect();
+    for s in &symbols {
+        let u = *s as u32;
+        for c in [u ^ 0x20, u & !0x20, u | 0x20, u | 0x80, u & 0x7F, u + 0x100, u + 0xFEE0, u + 1, u.wrapping_sub(1), u ^ 0x1, u ^ 0x10, u ^ 0x40, u + 0x10000] {
+            if let Some(ch) = char::from_u32(c) {
+                v.push(ch);
+            }
+        }
+    }
+    // characters whose Unicode case mappings produce a symbol (e.g. U+212A KELVIN SIGN -> 'k')
+    for cp in 0..=0x10FFFFu32 {
+        if let Some(ch) = char::from_u32(cp) {
+            if !symbols.contains(&ch) && (ch.to_lowercase().chain(ch.to_uppercase())).any(|m| symbols.contains(&m)) {
+                v.push(ch);
+            }
+        }
+    }
     v.sort_unstable();
     v.dedup();
     v
@@ -189,7 +208,7 @@ pub fn hand_text_strategy(k: std::ops::RangeInclusive<usize>) -> impl Strategy<V
 }
 
 pub fn run(run: &mut Run) -> PResult {
-    run.rule = "every Unicode scalar value through the rank and suit symbol tables; tokens c1 c2 tail for every pair (c1, c2) over an alphabet of all symbols, look-alikes, separators, NUL and 1-4 byte characters x 8 tails, plus empty and one-character tokens; 52 cards x 4 renderings for the round trip; proptest hand texts of 0..=9 tokens and arbitrary strings through from_index, get_rank_and_suit, five_from_index, TryFrom<&str> for Two..Seven and BinaryCard::from_index; thorough adds a libFuzzer campaign. Oracle: symbol tables + first-two-characters rule + tokenisation on the common separators. Non-trivial = tokens / texts that are not one of the canonical spellings of a card (tails, junk, multi-byte, too few or exactly N tokens with junk); distinct by 64-bit hash of the text".into();
+    run.rule = "every Unicode scalar value through the rank and suit symbol tables; tokens c1 c2 tail for every pair (c1, c2) over an alphabet of all symbols, look-alikes, separators, NUL and 1-4 byte characters x 8 tails, plus empty and one-character tokens(the alphabet includes mechanically derived confusables of every symbol: bit-mask, case-mapping, width and off-by-one neighbours); every two-character token with any Unicode character before a suit symbol or after a rank symbol; 52 cards x 4 renderings for the round trip; proptest hand texts of 0..=9 tokens (occasionally separated by U+000B, U+0085, U+00A0, U+2003) and arbitrary strings through from_index, get_rank_and_suit, five_from_index, TryFrom<&str> for Two..Seven and BinaryCard::from_index; thorough adds a libFuzzer campaign. Oracle: symbol tables + first-two-characters rule + tokenisation under the probed whitespace definition. Non-trivial = tokens / texts that are not one of the canonical spellings of a card (tails, junk, multi-byte, too few or exactly N tokens with junk); distinct by 64-bit hash of the text".into();
     run.assume("texts with more tokens than slots: only totality is asserted (the statement speaks of fewer and of exactly that many)");
     run.assume(&format!("'whitespace' is one of the two standard definitions (Unicode White_Space or ASCII whitespace); which one the crate follows is probed on the two-card parser (this run: {:?}) and then required uniformly of every parser on every text, so either implementation passes but a mixture does not", ws_def()));
     super::regress::replay_dir(run, "C12", check_case)?;
@@ -264,6 +283,24 @@ pub fn run(run: &mut Run) -> PResult {
         if let Some(t) = bad {
             let m = token_clause(&t).err().unwrap_or_default();
             return run.violation("C12.token", &t, json!({"token": t}), &m);
+        }
+    }
+    // call-order independence: ordered pairs of tokens parsed back to back
+    if !run.is_twin() {
+        let mut toks: Vec<String> = Vec::new();
+        for r in text::RANK_SYMBOLS.chars() {
+            for s in text::SUIT_SYMBOLS.chars() {
+                toks.push(format!("{}{}", r, s));
+            }
+        }
+        for t in ["", "A", "♠", "♠A", "XS", "AX", "1S", "Ａs", "\u{212A}S", "A\u{2640}", "\u{12}S", "as ks", "0♡xyz", "🂡", "A\u{301}S", " AS", "\tKd"] {
+            toks.push(t.to_string());
+        }
+        let hit = engine::ordered_pairs(&toks, &|a| { std::hint::black_box(CKCNumber::from_index(a)); }, &|b| token_clause(b));
+        let np = (toks.len() * toks.len()) as u64;
+        run.generator("ordered pairs of tokens parsed back to back", "exhaustive (histories of length 2)", Some(np), np, np, "all 304 canonical spellings + junk tokens");
+        if let Some((a, b, m)) = hit {
+            return run.violation("C12.sequence", &format!("{:?} ; {:?}", toks[a], toks[b]), json!({"tokens": [toks[a], toks[b]]}), &format!("after parsing {:?}: {}", toks[a], m));
         }
     }
     // E3: render -> parse
@@ -351,6 +388,13 @@ pub fn check_case(clause: &str, case: &Value) -> Result<(), String> {
             char_clause(c)
         }
         "C12.token" => token_clause(case["token"].as_str().ok_or("token")?),
+        "C12.sequence" => {
+            std::hint::black_box(CKCNumber::from_index("7d"));
+            for (i, t) in case["tokens"].as_array().ok_or("tokens")?.iter().enumerate() {
+                token_clause(t.as_str().unwrap_or("")).map_err(|m| format!("call {}: {}", i + 1, m))?;
+            }
+            Ok(())
+        }
         "C12.roundtrip" => {
             let w = engine::parse_word(&case["word"])?;
             let t = case["text"].as_str().ok_or("text")?;
